@@ -1427,8 +1427,8 @@ class WBEMConnection:  # pylint: disable=too-many-instance-attributes
         object for human consumption.
         """
 
-        if isinstance(self.creds, tuple):
-            # tuple (userid, password) was specified
+        if isinstance(self.creds, (tuple, list)) and self.creds:
+            # (userid, password) was specified
             creds_repr = _format("({0!A}, ...)", self.creds[0])
         else:
             creds_repr = _format("{0!A}", self.creds)
@@ -1447,8 +1447,8 @@ class WBEMConnection:  # pylint: disable=too-many-instance-attributes
         credentials) that is suitable for debugging.
         """
 
-        if isinstance(self.creds, tuple):
-            # tuple (userid, password) was specified
+        if isinstance(self.creds, (tuple, list)) and self.creds:
+            # (userid, password) was specified
             creds_repr = _format("({0!A}, ...)", self.creds[0])
         else:
             creds_repr = _format("{0!A}", self.creds)
